@@ -1017,6 +1017,16 @@ class PDFSimpleFont(PDFFont):
         except KeyError:
             raise PDFUnicodeNotDefined(None, cid)
 
+    def char_width(self, cid: int) -> float:
+        # Built-in metrics are keyed by the character of the glyph that the
+        # encoding selects, not by the text a ToUnicode map reports for it.
+        cid_width = safe_float(self.widths.get(cid))
+        if cid_width is None and cid in self.cid2unicode:
+            cid_width = safe_float(self.widths.get(self.cid2unicode[cid]))
+        if cid_width is None:
+            cid_width = self.default_width
+        return cid_width * self.hscale
+
 
 class PDFType1Font(PDFSimpleFont):
     def __init__(self, rsrcmgr: "PDFResourceManager", spec: Mapping[str, Any]) -> None:
